@@ -1860,6 +1860,91 @@ def gen_program(seed, index, kind=None, only=None):
     return Program(name, g.decls, g.features, boundary=g.boundary, expect=expect, kind=kind)
 
 
+
+# ----------------------------------------------------------------------------------------------- C02: hostile arguments
+class RawProgram:
+    """a hand-templated Dora program (no S-expression twin): `family`/`case` name the finding key"""
+
+    def __init__(self, name, dora, family, case, note=''):
+        self.name = name
+        self.dora = 'use std::string::Stringable;\n\n' + dora
+        self.sexp = None
+        self.features = {'hostile:' + family}
+        self.boundary = True
+        self.expect = None
+        self.kind = 'hostile'
+        self.family = family
+        self.case = case
+        self.note = note
+        self.decls = None
+
+
+LEN_CLASSES = [('neg1', '(-1i64)'), ('min', 'Int64::min_value()'), ('2p31', '2147483648i64'),
+               ('2p61m1', '2305843009213693951i64'), ('2p61p1', '2305843009213693953i64'),
+               ('max', 'Int64::max_value()'), ('neg5', '(-5i64)'), ('2p60', '1152921504606846976i64')]
+
+
+def lenlit(x):
+    return x
+
+
+def hostile_programs(tier='quick'):
+    """Boundary-value calls of stdlib entry points and intrinsics.  Every program prints what it gets and then
+    USES the result, so a wrong allocation shows as a silent success, a trap or a crash."""
+    out = []
+
+    def add(family, case, body, note=''):
+        out.append(RawProgram('h_%s_%s' % (family.replace('-', ''), case.replace('=', '').replace(':', '_').replace('-', 'm')),
+                              'fn main() {\n%s}\n' % ''.join('    ' + l + '\n' for l in body), family, case, note))
+    # --- array allocation with extreme lengths (the length goes through a function so it is not a literal)
+    elems = [('Int64', '7i64'), ('UInt8', '7u8'), ('Int32', '7i32')] if tier == 'thorough' else [('Int64', '7i64'), ('UInt8', '7u8')]
+    for cls, l in LEN_CLASSES:
+        if tier == 'quick' and cls in ('neg5', '2p60', 'min'):
+            continue
+        for t, v in elems:
+            ctors = [('zero', 'Array[%s]::zero(n)' % t)]
+            if t == 'Int64' or tier == 'thorough':
+                ctors.append(('fill', 'Array[%s]::fill(n, %s)' % (t, v)))
+            for cn, ce in ctors:
+                add('array-new', 'len=%s:%s:%s' % (cls, t, cn),
+                    ['let n = %s;' % l, 'let a = %s;' % ce, 'println("size ${a.size()}");',
+                     'a(1000000i64) = %s;' % v, 'println("stored ${a(1000000i64)}");'])
+        if tier == 'thorough' or cls in ('neg1', '2p61p1', 'max'):
+            add('array-new', 'len=%s:Int64:vec-capacity' % cls,
+                ['let n = %s;' % l, 'let w = Vec[Int64]::new_with_capacity(n);', 'w.push(1i64);',
+                 'println("size ${w.size()} ${w(0i64)}");'])
+    # --- indexing
+    for cls, idx in [('neg1', '(-1i64)'), ('size', '3i64'), ('max', 'Int64::max_value()'), ('min', 'Int64::min_value()'),
+                     ('2p32', '4294967296i64')]:
+        add('array-index', 'get:%s' % cls, ['let a = Array[Int64]::fill(3i64, 1i64);', 'let i = %s;' % idx, 'println("${a(i)}");'])
+        add('array-index', 'set:%s' % cls, ['let a = Array[UInt8]::zero(3i64);', 'let i = %s;' % idx, 'a(i) = 1u8;', 'println("stored");'])
+        add('vec-index', 'get:%s' % cls, ['let w = Vec[Int64]::new(1i64, 2i64, 3i64);', 'let i = %s;' % idx, 'println("${w(i)}");'])
+        add('string-index', 'get_byte:%s' % cls, ['let s = "abc";', 'let i = %s;' % idx, 'println("${s.get_byte(i)}");'])
+    for cls, (o, l) in [('neg-off', ('(-1i64)', '1i64')), ('neg-len', ('0i64', '(-1i64)')), ('too-long', ('1i64', '3i64')),
+                        ('max-len', ('1i64', 'Int64::max_value()')), ('max-off', ('Int64::max_value()', '1i64'))]:
+        add('string-slice', 'from_bytes_part:%s' % cls,
+            ['let b = "abcd".as_bytes();', 'let o = %s;' % o, 'let l = %s;' % l,
+             'let s = String::from_bytes_part(b, o, l);', 'println("${s.is_some()}");'])
+    add('vec-ops', 'remove_at:empty', ['let w = Vec[Int64]::new();', 'println("${w.remove_at(0i64)}");'])
+    add('vec-ops', 'remove_at:neg', ['let w = Vec[Int64]::new(1i64);', 'println("${w.remove_at(-1i64)}");'])
+    add('vec-ops', 'pop:empty', ['let w = Vec[Int64]::new();', 'println("${w.pop().is_none()}");'])
+    add('vec-ops', 'insert_at:far', ['let w = Vec[Int64]::new(1i64);', 'w.insert_at(5i64, 2i64);', 'println("${w.size()}");'])
+    # --- arithmetic edges through variables
+    for t, suf in (('Int32', 'i32'), ('Int64', 'i64')):
+        add('arith', 'min-div-neg1:%s' % t, ['let a = %s::min_value();' % t, 'let b = -1%s;' % suf, 'println("${a / b}");'])
+        add('arith', 'min-mod-neg1:%s' % t, ['let a = %s::min_value();' % t, 'let b = -1%s;' % suf, 'println("${a % b}");'])
+        add('arith', 'div0:%s' % t, ['let a = 5%s;' % suf, 'let b = 0%s;' % suf, 'println("${a / b}");'])
+        bits = 32 if t == 'Int32' else 64
+        for amt in (-1, bits, bits + 1, 2147483647):
+            add('shift', 'shl:%s:%d' % (t, amt), ['let a = 1%s;' % suf, 'let n = %s;' % ('(-1i32)' if amt < 0 else '%di32' % amt),
+                                                  'println("${a << n}");'])
+        add('shift', 'sar:%s:%d' % (t, bits), ['let a = 1%s;' % suf, 'let n = %di32;' % bits, 'println("${a >> n}");'])
+        add('shift', 'shr:%s:%d' % (t, bits), ['let a = 1%s;' % suf, 'let n = %di32;' % bits, 'println("${a >>> n}");'])
+    add('conv', 'narrow', ['let a = 4294967297i64;', 'let b = (-1i64);', 'let c = 1114112i32;', 'let d = 55296i32;',
+                           'println("${a.to_int32()} ${b.to_uint8()} ${a.to_uint8()} ${c.to_char().is_none()} ${d.to_char().is_none()} ${b.to_char().is_none()}");'])
+    add('conv', 'string-to-int', ['println("${"99999999999999999999".to_int64().is_none()} ${"-2147483649".to_int32().is_none()} ${"".to_int32().is_none()} ${"-9223372036854775808".to_int64().is_some()}");'])
+    return out
+
 if __name__ == '__main__':
     import sys
     seed = int(sys.argv[1]) if len(sys.argv) > 1 else 1
